@@ -165,7 +165,9 @@ fn apply_delta(py: Python, py_src_buf: Py<PyAny>, py_delta: Py<PyAny>) -> PyResu
 
     let dest_size = get_delta_header_size(delta.as_ref(), &mut index, delta_len)
         .map_err(ApplyDeltaError::new_err)?;
-    let mut out = vec![0; dest_size];
+    // The declared size is not trusted for the allocation: reserve no more
+    // than the supplied data can account for and grow as output is produced.
+    let mut out: Vec<u8> = Vec::with_capacity(dest_size.min(src_buf_len.saturating_add(delta_len)));
     let mut outindex = 0;
 
     while index < delta_len {
@@ -212,7 +214,7 @@ fn apply_delta(py: Python, py_src_buf: Py<PyAny>, py_delta: Py<PyAny>) -> PyResu
                 break;
             }
 
-            out[outindex..outindex + cp_size].copy_from_slice(&src_buf[cp_off..cp_off + cp_size]);
+            out.extend_from_slice(&src_buf[cp_off..cp_off + cp_size]);
             outindex += cp_size;
         } else if cmd != 0 {
             if (cmd as usize) > dest_size {
@@ -227,8 +229,7 @@ fn apply_delta(py: Python, py_src_buf: Py<PyAny>, py_delta: Py<PyAny>) -> PyResu
                 return Err(ApplyDeltaError::new_err("delta not empty"));
             }
 
-            out[outindex..outindex + cmd as usize]
-                .copy_from_slice(&delta[index..index + cmd as usize]);
+            out.extend_from_slice(&delta[index..index + cmd as usize]);
             outindex += cmd as usize;
             index += cmd as usize;
         } else {
